@@ -1,7 +1,7 @@
 #!/bin/bash
 # usage: tools/validate_seed.sh <Cxx> [name]  — confirm a seeded change produced in /tmp/wt-<Cxx> (+ /tmp/seedwork/<Cxx>):
 #   existing tests pass with it, the demo fails with it and passes without it. Prints a summary; exit 0 if confirmed.
-pid=$1; wt=/tmp/wt-$pid; sw=/tmp/seedwork/$pid
+pid=$1; wt=/tmp/wt${SEED_ROUND}-$pid; sw=/tmp/seedwork${SEED_ROUND}/$pid
 cd $wt || exit 2
 export CARGO_NET_OFFLINE=true
 git checkout -q -- src 2>/dev/null; git apply $sw/patch.diff || { echo "patch does not apply"; exit 2; }
